@@ -22,6 +22,87 @@ CHECKS = {
         design="6 (C04)",
         technique=TECH,
     ),
+    "C01": dict(
+        category="model_checking",
+        text="spec/BloomFamily.tla: two filters over a table-driven hash function (the hash table is model input, TLC takes it from a set of collision "
+        "shapes and seeded tables; exhaustive for the smallest geometry in the thorough tier); invariant NoFalseNegative and action property Monotone checked "
+        "by TLC; every generated transition is executed on BloomFilter / BloomFilterOnDisk and every key added since the last clear must be reported present "
+        "after every step, after union, and after every export/load channel and on-disk reopen.",
+        note="Geometries up to 17 bits / 5 hashes, 3 keys, histories up to depth 5; expanding filters are covered by the ExpandingBloom engine; the default "
+        "hash strategies by the trace checks. Trusted: TLC, the harness.",
+        design="6 (C01)", technique=TECH),
+    "C02": dict(
+        category="model_checking",
+        text="spec/CountMin.tla: cells, total, and the history oracle tru[k]; invariants Bounds (tru <= est <= total, exact when isolated), TotalMeaning and "
+        "action property RetIsCheck checked by TLC for widths/depths up to 3x3 and every generated transition executed on CountMinSketch (also HeavyHitters and "
+        "StreamThreshold in min mode), all keys queried after every step.",
+        note="Unsaturated, legitimate histories only (as the property states); table-driven hash functions; small widths so that collisions are the norm.",
+        design="6 (C02)", technique=TECH),
+    "C03": dict(
+        category="model_checking",
+        text="spec/Cuckoo.tla returns, for every insertion, the SET of outcomes over all resolutions of the random bucket/slot choices (and of all "
+        "re-insertions of an expansion); TLC enumerates every alternate-bucket table and every choice sequence and checks Kept / NoPhantom / FailedKeeps; "
+        "the harness scripts `random` inside the cuckoo modules so the real filter follows each emitted choice sequence, then compares presence of every key "
+        "that is owed, before/after a failed add, and the whole table (drift).",
+        note="Capacities up to 8, bucket sizes up to 3, max_swaps up to 3, up to 7 fingerprints; the schedule of random draws is the code's own order of "
+        "calls to random.choice / random.randint (a change of that order shows up as drift, not as a verdict).",
+        design="6 (C03)", technique=TECH),
+    "C05": dict(
+        category="model_checking",
+        text="In every distinct state reached by the S2C runs of the Bloom-family, count-min-family and cuckoo engines the real object is exported through "
+        "every channel it offers (bytes, file path, file object, hex, on-disk reopen) and loaded back; queries of every universe key, geometry, counters, "
+        "class, re-exported bytes and agreement between channels are compared.",
+        note="The states are the reachable states of the small model instances; expanding/rotating filters are covered by their own engine.",
+        design="6 (C05)", technique=TECH),
+    "C08": dict(
+        category="model_checking",
+        text="Counting Bloom: BloomFamily.tla with Counting=TRUE (invariants NoFalseNegative with outstanding counts, RemoveUndoesAdd); every transition "
+        "executed on CountingBloomFilter incl. coinciding positions, with the undo clause evaluated on exported bytes. Counting cuckoo: Cuckoo.tla with "
+        "Counting=TRUE (CountExact), every eviction/expansion path forced through the real class.",
+        note="Below saturation, legitimate removals only (as stated).", design="6 (C08)", technique=TECH),
+    "C12": dict(
+        category="model_checking",
+        text="Union of every pair of reachable operand states (plain, on-disk in either position, counting) and count-min join are derived in the model "
+        "(UnionCells, JoinS; invariants UnionSuperset, UnionSumLower, JoinIsSum) and compared cell by cell with what the real classes compute; for "
+        "addition-only streams the result is also compared with a real single structure fed both streams.",
+        note="Unsaturated operands; same-geometry same-hash pairs.", design="6 (C12)", technique=TECH),
+    "C13": dict(
+        category="model_checking",
+        text="Intersection cells and the Jaccard index <<|both|,|either|>> are derived in BloomFamily.tla for every pair of reachable operand states "
+        "(invariants InterBoth, JaccardOK) and compared with the real results incl. symmetry, range, identical operands and operand immutability.",
+        note="Compatible pairs from the model runs; the incompatibility rules are checked by the compat routine over generated configuration pairs.",
+        design="6 (C13)", technique=TECH),
+    "C14": dict(
+        category="model_checking",
+        text="Every model has the counter as a state variable with its documented meaning as an invariant against history oracles (CounterMeaning, "
+        "TotalMeaning, CounterOK, CountIsSize); the clause C14.count.<structure> is evaluated after every step of every S2C run of every structure, incl. "
+        "reload, removal, expansion and join paths; the two Bloom statistics are compared with an independent 50-digit evaluation away from rounding boundaries.",
+        note="Statistics clause: TLC has no reals; the harness evaluates the closed forms independently (see DESIGN section 8).",
+        design="6 (C14)", technique=TECH),
+    "C15": dict(
+        category="model_checking",
+        text="Invariants BucketSize, Placement, NoDup, CountPos, CapChain of spec/Cuckoo.tla checked by TLC on every reachable table; the same predicates are "
+        "evaluated on the public buckets of the real filter after every operation of every emitted transition and on tables loaded from an export.",
+        note="Same scope as C03.", design="6 (C15)", technique=TECH),
+    "C16": dict(
+        category="model_checking",
+        text="BloomFamily.tla / CountMin.tla with tiny limits (cells +-3, totals +-5) so that TLC walks across the limits exhaustively (TypeOK, "
+        "SaturatedStays); the same tiny limits are patched into the limit constants the counting modules read, and every transition is executed on the "
+        "real classes: no exception, returned value, every cell and total equal to the model, export/load, union/intersection/join.",
+        note="The limits are patched module attributes (UINT32_T_MAX, INT32_T_MAX, ...); the real 2^31/2^32/2^63/2^64 limits are exercised by the "
+        "limb-arithmetic trace check.", design="6 (C16)", technique=TECH),
+    "C17": dict(
+        category="model_checking",
+        text="CountMin.tla models the tracked tables as insertion-ordered dictionaries incl. the cached (stale) smallest value of HeavyHitters; invariants "
+        "HHConsistent, STConsistent, STNeverMissing checked by TLC for colliding widths/depths; on the real classes the public tables are compared with "
+        "the values the object itself returned (purely observational clauses).",
+        note="Key universe of 3-4 keys, up to 3 hitters, thresholds 1..3, depth up to 7.", design="6 (C17)", technique=TECH),
+    "C19": dict(
+        category="model_checking",
+        text="In every source state of every S2C run the harness executes the battery of read-only calls (queries of present and absent keys, statistics, "
+        "str, hashes, every export channel, being the non-receiver of union/intersection/jaccard/join/merge) and compares exported bytes, counters and "
+        "tables before/after; clear() is compared with a freshly constructed object.",
+        note="Reachable states of the small model instances.", design="6 (C19)", technique=TECH),
     "C20": dict(
         category="model_checking",
         text="spec/Bitarray.tla keeps the abstract list of n bits next to the packed byte representation (refinement invariant, frame action property); "
